@@ -251,7 +251,10 @@ func propC07(t *rapid.T) {
 		case noSite:
 			n.lg.Info(msg)
 		default:
-			n.lg.Info(msg, site.Field())
+			// the call-site fields travel in the caller's scratch slice, recycled once the call has returned
+			fs := []zapcore.Field{site.Field()}
+			n.lg.Info(msg, fs...)
+			fs[0] = zap.String("recycled", "scratch slice")
 		}
 		history = append(history, fmt.Sprintf("log(#%d)", n.id))
 		want := newObjX()
@@ -337,6 +340,11 @@ func propC07(t *rapid.T) {
 						fail("observer field %d %v differs from %v", i, g, w)
 					}
 				}
+			}
+			// what an observer hands out belongs to the receiver: tests scrub volatile fields of observed entries in
+			// place. Neither the logger's context nor later observed entries may change with it.
+			for i := range es[0].Context {
+				es[0].Context[i] = zap.String("scrubbed", "by the receiver")
 			}
 		}
 		if kind == "hooked" || strings.HasSuffix(kind, "+all") {
